@@ -482,6 +482,7 @@ func (c *Ctx) escapeLines(goBin string) ([]escLine, error) {
 var heapAllow = map[string]bool{
 	"reflect.ValueOf": true, "reflect.Value.Kind": true, "reflect.Value.MapRange": true, "reflect.MapIter.Next": true,
 	"reflect.Value.Elem": true, "reflect.Value.IsValid": true, "reflect.Value.UnsafePointer": true, "reflect.Value.IsNil": true,
+	"encoding/binary.bigEndian.AppendUint16": true, "encoding/binary.bigEndian.AppendUint32": true, "encoding/binary.bigEndian.AppendUint64": true,
 	"sync/atomic.Pointer.Load": true, "sync.Pool.Get": true, "sync.Pool.Put": true, "reflect.Value.Set": true,
 }
 
